@@ -244,21 +244,31 @@ def quat_log_families(ctx):
 
 
 def quat_log_lemmas(ctx, sign):
-    """lemma chain for the hemisphere sign*w > 0 (sign = +1 / -1): returns (case hypotheses, [(name, formula)])"""
+    """lemma chain for the hemisphere sign*w > 0 (sign = +1 / -1): returns (case hypotheses, lemma list for Harness.chain).
+    Base facts (literal axioms / path facts) are proved from the full hypothesis set; every further step is a FOCUSED query that sees
+    only the handful of facts it needs."""
     case, lem = [], []
     for n, f in enumerate(quat_log_families(ctx)):
         A, S1, w, S3 = f['A'], f['S1'], f['w'], f['S3']
-        # the hemisphere hypothesis is on the first family's w; other families have w' = +-w syntactically
+        a1, a3 = ctx.tfvar[S1.get_id()][1], ctx.tfvar[S3.get_id()][1]
         if n == 0:
             case.append(w > 0 if sign > 0 else w < 0)
         sw = z3.If(w > 0, w, -w)
-        lem.append(('theta%d=2|atan|' % n, S3 == z3.If(w > 0, 2 * A, -2 * A)))
+        u = S1 / w
+        L = lambda nm: '%s%d' % (nm, n)
+        lem += [(L('case'), z3.Or(w > 0, w < 0)),
+                (L('S1-def'), z3.And(S1 >= 0, S1 * S1 == a1)), (L('S3-def'), z3.And(S3 >= 0, S3 * S3 == a3)), (L('S1>0'), S1 > 0),
+                (L('atan-sign'), z3.And(z3.Implies(w > 0, A > 0), z3.Implies(w < 0, A < 0))),
+                (L('theta=2|atan|'), S3 == z3.If(w > 0, 2 * A, -2 * A), [L('case'), L('S1-def'), L('S3-def'), L('S1>0'), L('atan-sign')])]
         if f['half'] is not None:
             sn, cs = f['half']
-            lem.append(('half%d:a' % n, z3.And(sn * sw == S1 * cs, cs > 0)))
-            lem.append(('half%d:b' % n, cs * cs == w * w))
-            lem.append(('half%d' % n, z3.And(cs == sw, sn == S1)))
+            lem += [(L('atan-link'), z3.And(z3.Implies(S3 / 2 == A, z3.And(sn == u * cs, cs > 0)), z3.Implies(S3 / 2 == -A, z3.And(sn == -u * cs, cs > 0)))),
+                    (L('pyth'), sn * sn + cs * cs == 1),
+                    (L('unit'), S1 * S1 + w * w == 1),
+                    (L('half:a'), z3.And(sn * sw == S1 * cs, cs > 0), [L('case'), L('theta=2|atan|'), L('atan-link')]),
+                    (L('half:b'), cs * cs == w * w, [L('case'), L('half:a'), L('pyth'), L('unit')]),
+                    (L('half'), z3.And(cs == sw, sn == S1), [L('case'), L('half:a'), L('half:b'), L('S1>0'), L('pyth'), L('unit')])]
             if f['full'] is not None:
                 sN, cN = f['full']
-                lem.append(('full%d' % n, z3.And(sN == 2 * S1 * sw, cN == 1 - 2 * S1 * S1)))
+                lem.append((L('full'), z3.And(sN == 2 * S1 * sw, cN == 1 - 2 * S1 * S1)))
     return case, lem
